@@ -35,11 +35,17 @@ def _feasible(cs: list[Any]) -> bool:
 
 
 class SymBool:
-    def __init__(self, expr: Any):
+    def __init__(self, expr: Any, domain: Any = None):
+        """domain: condition under which `expr` is meaningful (a float case split that covers only a declared range);
+        it is added to the path condition on BOTH branches, so that the negation of a partial case split is never
+        mistaken for 'false'."""
         self.expr = expr
+        self.domain = domain
 
     def __bool__(self) -> bool:
         run = _CUR[-1]
+        if self.domain is not None:
+            run.pc.append(self.domain)
         i = len(run.taken)
         if i < len(run.prefix):
             d = run.prefix[i]
@@ -228,7 +234,8 @@ class SymFloat:
                 a, b = s1 * m1 * 2 ** (q1 - q), s2 * m2 * 2 ** (q2 - q)
                 c = {"<": a < b, "<=": a <= b, ">": a > b, ">=": a >= b, "==": a == b, "!=": a != b}[op]
                 alts.append(z3.And(g1, g2, c))
-        return SymBool(z3.Or(alts))
+        domain = z3.And(z3.Or([c_[0] for c_ in self.cases]), z3.Or([c_[0] for c_ in o.cases]))
+        return SymBool(z3.Or(alts), domain)
 
     def __lt__(self, o: Any) -> SymBool: return self._cmp(o, "<")
     def __le__(self, o: Any) -> SymBool: return self._cmp(o, "<=")
